@@ -42,7 +42,8 @@ impl<'a> PairFn for Corrupt<'a> {
         let (cols, vals, pubs) = build_statement::<B>(st);
         let info = starkit::SpecTrace::<B>::new(&st.spec, &cols, st.meta.clone()).info;
         if kit::pan::catch(|| <starkit::SpecAir<B> as air::Air>::new(info.clone(), pubs.clone(), st.opts.to_options())).is_err() {
-            out.class("filtered: description refused by the AIR constructor");
+            // completeness (is the refusal legitimate?) is C01's question; here the point is only skipped
+            out.class(if st.spec.exemptions_exceed_degree_budget() { "filtered: exemptions exceed the degree budget (documented refusal)" } else { "skipped: description refused by the AIR constructor (reported by C01)" });
             return;
         }
         if main_valid::<B>(&st.spec, &cols, &vals).is_err() {
